@@ -6,15 +6,16 @@
   tax/totals_calculator.go and tax/totals.go).  Helper lemmas:
   Proofs/CalcTax.lean.
 
-  The currency-rule forms of the sums are in Props/C03.  Not proved: that the
-  rounded (presented) figures of `roundTax` are the half-away roundings of
-  these exact ones is immediate from `Props.C01.rescale_point`; the statement
-  for the whole `calculate` (glue through `taxTotal`) is exercised only.
+  The currency-rule forms of the sums are in Props/C03.  The statement for the
+  whole `calculate` — the executable oracle `Spec.C02.summaryOk` holds of every
+  calculated document — is `tax_summary_spec` (glue through `taxTotal`,
+  `roundTax` and `finish`: Proofs/CalcSummary.lean).
 -/
 import GoblVerif.Spec.C02
 import GoblVerif.Generated.CalcFacts
 import GoblVerif.Proofs.CalcTax
 import GoblVerif.Proofs.CalcGroups
+import GoblVerif.Proofs.CalcSummary
 
 namespace GoblVerif.Props.C02
 open GoblVerif GoblVerif.Calc GoblVerif.Spec.C02
@@ -180,6 +181,78 @@ example :
         { total := ⟨700, 4⟩, taxes := [{ cat := "VAT", country := "", key := "", percent := some ⟨⟨10, 2⟩⟩, surcharge := none, ext := "", retained := false }] },
         { total := ⟨300, 4⟩, taxes := [{ cat := "VAT", country := "", key := "", percent := none, surcharge := none, ext := "", retained := false }] } ]).map
       (fun ct => ct.rates.map (·.base)) = [[⟨15000, 4⟩, ⟨700, 4⟩, ⟨300, 4⟩]] := by decide
+
+/-- **tax_summary_spec** (capstone): for EVERY document the model calculates, under
+either rounding rule, the executable oracle `Spec.C02.summaryOk` — the whole
+statement of C02, and the function that judges the output of the real
+`Invoice.Calculate` in harness/props/c02 — holds of the input document and what
+`Calc.calculate` returns.  In exact rationals, over the contributions of the
+(row, combo) pairs (the row's working total with the included tax taken out
+with the row's own percentage, `included_tax_removed_with_own_percentage`;
+rounded to the currency under the currency rule):
+
+* categories have pairwise distinct codes, the groups of a category pairwise
+  distinct keys (`groups_pairwise_distinct`, `matches_iff_same_key`), and every
+  contribution finds its category and the group with its key: each taxed row
+  total lands in exactly one rate group of its category;
+* every presented base is the sum of the contributions with that category and
+  key (the per-group form of `partition_by_key`; hence also Σ of the group
+  bases of a category = Σ of all contributions to it, `partition`), rounded to
+  the currency;
+* every group amount and surcharge is the percentage of that sum rounded half
+  away from zero once at the group's working precision (`group_amount`,
+  `surcharge_amount`), presented rounded to the currency;
+* category amount = Σ group amounts, category surcharge = Σ group surcharges
+  (`category_sum`), presented exactly when a group carries one;
+* tax sum = Σ ordinary − Σ retained categories including surcharges (`tax_sum`,
+  and its currency-rule form), and it is the document's `tax`;
+* `tax_included` is the presented amount of the included category, and when that
+  category is the only one, ordinary and without surcharge, total with tax is
+  the gross total of the rows (`included_only_total_with_tax`).
+
+No hypothesis besides `h`: a document the calculation refuses (no exchange rate,
+a retained category included in prices) has no output.  The glue through
+`taxTotal` / `roundTax` / `finish` that the earlier theorems left to the
+differential run is Proofs/CalcSummary.lean. -/
+theorem tax_summary_spec (d : Doc) (out : Out) (h : calculate exactOps d = .ok out) :
+    summaryOk d out = true := by
+  unfold calculate at h
+  unfold summaryOk
+  cases hp : pre exactOps d with
+  | error e => simp [hp] at h
+  | ok p =>
+    simp only [hp] at h ⊢
+    split at h
+    · rename_i hrows
+      injection h with h
+      subst h
+      simpa [summaryRowsOk] using hrows
+    · cases htx : taxTotal exactOps d.rule d.c d.includes p.rows with
+      | error e => simp [htx] at h
+      | ok tx =>
+        simp only [htx] at h
+        injection h with h
+        subst h
+        exact summaryRowsOk_finish d p tx htx
+          (fun ti h1 h2 => included_only_total_with_tax d p tx ti h1 h2)
+
+/-- non-vacuity of `tax_summary_spec`: `Calc.readdExample` (tax-included prices, two
+VAT 21 % groups that differ in the surcharge, VAT 10 % fed by a line and a
+document discount, a retained category) is calculated under both rules … -/
+example : ((calculate exactOps readdExample).toOption.isSome &&
+    (calculate exactOps { readdExample with rule := .precise }).toOption.isSome) = true := by decide
+
+/-- … the oracle evaluates to true on both outputs (as the theorem says) … -/
+example : ((calculate exactOps readdExample).toOption.map (summaryOk readdExample),
+    (calculate exactOps { readdExample with rule := .precise }).toOption.map
+      (summaryOk { readdExample with rule := .precise })) = (some true, some true) := by decide +kernel
+
+/-- … and it is not trivially true: under the precise rule the summary of the
+currency-rule calculation is refused, and so is a tax sum that is off by one unit -/
+example : ((calculate exactOps readdExample).toOption.map (summaryOk { readdExample with rule := .precise }),
+    (calculate exactOps readdExample).toOption.map (fun o => summaryOk readdExample
+      { o with totals := o.totals.map (fun t => { t with tax := ⟨t.tax.value + 1, 2⟩ }) })) =
+    (some false, some false) := by decide +kernel
 
 /-! ## pinned source shapes (regenerated facts; tools/pin_calc_expect.py) -/
 
